@@ -1302,11 +1302,216 @@ def pair_level(ctx):
     ctx.oracle_count("pair-level", n, n)
 
 
+# --------------------------------------------------------------------------- the cookie transport (Model/C16_transport.v)
+TRANSPORT_IMPORTS = IMPORTS + ["Webob.Model.C16_transport"]
+TRANSPORT_TYPE = "(str * option str * bytes * list (str * str) * list (str * str))"
+
+
+def _raw_name(f, *a):
+    """(True, value) or (False, exact exception class name)"""
+    try:
+        return True, f(*a)
+    except Exception as e:  # noqa
+        return False, type(e).__name__
+
+
+def transport_setup(case):
+    """profile, value handed to set_cookies, serialised value (what make_cookie receives)"""
+    name, dom = case["name"], case.get("dom")
+    domains = None if dom is None else [dom]
+    if case["mode"] == "signed":
+        v = json.loads(case["value"])
+        p = make_profile(case["secret"], case["salt"], case["alg"], name, domains)
+        tok = make_serializer(case["secret"], case["salt"], case["alg"]).dumps(v)
+    else:
+        v = tok = bytes.fromhex(case["raw"])
+        p = raw_profile(name, domains)
+    return p, v, tok
+
+
+def transport_header(case, pair):
+    """The Cookie header a client sends: the echoed pair among its other cookies (values as webob emits them)."""
+    from webob.cookies import _value_quote
+
+    def render(k, hexv):
+        return k.encode("latin-1") + b"=" + _value_quote(bytes.fromhex(hexv))
+    return b"; ".join([render(k, b) for k, b in case["before"]] + [pair] + [render(k, b) for k, b in case["after"]])
+
+
+def transport_observe(case):
+    """Real webob: set_cookies on a Response -> Set-Cookie line -> echoed Cookie header -> request.cookies.get(name).
+    Returns the canonical observation compared with corr_transport."""
+    from webob import Response
+    p, v, tok = transport_setup(case)
+    name, dom = case["name"], case.get("dom")
+    resp = Response()
+    ok, r = _raw_name(p.set_cookies, resp, v)
+    if not ok:
+        return Err(r)
+    hs = [h for k, h in resp.headerlist if k == "Set-Cookie"]
+    if len(hs) != 1:
+        return Err("SetCookieCount%d" % len(hs))
+    line = hs[0]
+    header = transport_header(case, browser_echo(line).encode("latin-1"))
+    ok, got = _raw_name(lambda: make_request(header.decode("latin-1")).cookies.get(name))
+    plain_line = "%s=%s%s; Path=/" % (name, tok.decode("latin-1"), "" if dom is None else "; Domain=" + dom)
+    return [line, header, got if ok else Err(got), line == plain_line]
+
+
+def check_transport_case(case):
+    """The statement at the cookie level, on the real public API only: a SignedCookieProfile value set on a real Response,
+    echoed in a real Request among other cookies, comes back from get_value(); an altered echoed value gives None."""
+    if case["mode"] != "signed":
+        return None
+    from webob import Response
+    from webob.cookies import _valid_cookie_name
+    name = case["name"]
+    try:
+        valid = bool(name) and _valid_cookie_name(name.encode("ascii"))
+    except (UnicodeEncodeError, IndexError):
+        valid = False
+    p, v, tok = transport_setup(case)
+    if v is None:
+        return None
+    resp = Response()
+    ok, r = run_catch(p.set_cookies, resp, v)
+    if not valid:
+        return None if not ok else ("transport:invalid-name-accepted", "set_cookies accepted the cookie name %r" % name)
+    if not ok:
+        return "transport:set-cookies-raises", "set_cookies(%s) under name %r raised %s" % (case["value"][:80], name, r)
+    line = [h for k, h in resp.headerlist if k == "Set-Cookie"][0]
+    pair = browser_echo(line)
+    if pair != "%s=%s" % (name, ref_token(case["secret"], case["salt"], case["alg"], v).decode("ascii")):
+        return "transport:token-quoted-or-changed", "Set-Cookie %r does not carry name=token unquoted and unchanged" % (line[:200],)
+    shadowed = any(k == name for k, _ in case["after"])
+    header = transport_header(case, pair.encode("latin-1")).decode("latin-1")
+    undecodable = False
+    for _, hexv in case["before"] + case["after"]:
+        try:
+            bytes.fromhex(hexv).decode("utf-8")
+        except UnicodeDecodeError:      # C07's known finding: one cookie that is not UTF-8 makes request.cookies raise
+            undecodable = True
+    ok, r = run_catch(p.bind(make_request(header)).get_value)
+    if not ok:
+        return "transport:get-value-raises", "get_value raised %s for Cookie: %r" % (r, header[:300])
+    if undecodable:
+        # a neighbouring cookie that is not UTF-8 makes the whole jar undecodable: get_value must give None, not raise
+        return None if r is None else ("transport:value-from-undecodable-jar", "got %r from Cookie: %r" % (r, header[:300]))
+    if not shadowed and not same_value(r, v):
+        return "transport:roundtrip", ("value %s set as %r, echoed as Cookie: %r, read back as %r"
+                                       % (case["value"][:80], line[:200], header[:300], r))
+    if shadowed and r is not None and not same_value(r, v):
+        return "transport:other-value", "a later cookie of the same name made get_value return %r" % (r,)
+    # the echoed value altered (first symbol replaced by another alphabet symbol), still among the same cookies
+    t = pair.split("=", 1)[1]
+    alt = ("B" if t[0] != "B" else "C") + t[1:]
+    header2 = transport_header(case, ("%s=%s" % (name, alt)).encode("latin-1")).decode("latin-1")
+    ok, r2 = run_catch(p.bind(make_request(header2)).get_value)
+    if not ok:
+        return "transport:get-value-raises", "get_value raised %s for Cookie: %r" % (r2, header2[:300])
+    if r2 is not None and not shadowed:
+        return "transport:accepted-altered-cookie", "altered cookie %r read back as %r" % (header2[:300], r2)
+    return None
+
+
+TRANSPORT_NAMES = ["session", "auth_tkt", "a", "x-y.z", "SID", "a.b-c_d", "~tok!", "n" * 40, "Session", "x|y", "1", "*"]
+TRANSPORT_BAD_NAMES = ["bad name", "$x", "path", "Max-Age", "", "na;me", "n=m", "n\xe9", "\u20acx", "a,b", "secure", "a\"b"]
+TRANSPORT_DOMAINS = [None, None, None, "example.com", ".a.example.com", "ex ample.com", "", "d;x", "ex\xe4mple.com", "a,b.c"]
+TRANSPORT_OTHERS = [("a", b"1"), ("lang", "\u00e9".encode("utf-8")), ("z", b"y x;"), ("q", b'"quoted"'), ("u", "\u20ac\u00fc".encode("utf-8")),
+                    ("e", b""), ("bs", b"back\\slash"), ("b64", b"QUJD-_8="), ("sp", b" lead"), ("c,", b"v"), ("ctl", b"a\x00\nb"),
+                    ("sessio", b"near"), ("SESSION", b"case"), ("eq", b"k=v=w"), ("long", b"0123456789" * 12)]
+
+
+def gen_transport_cases(ctx, rng, n):
+    cases = []
+
+    def others(name, k):
+        out = []
+        for _ in range(k):
+            r = rng.random()
+            if r < 0.08:
+                out.append([name, rng.choice([b"other", b"", b"QUJD", b'x y']).hex()])       # same name: the later one wins
+            elif r < 0.12:
+                out.append([rng.choice(["nu", "a"]), rng.choice([b"\xff", b"\xc3", b"ok\xe9"]).hex()])   # not UTF-8: the jar raises
+            elif r < 0.16:
+                out.append([rng.choice(["path", "$v", "Domain", "expires"]), b"/x".hex()])   # names parse_cookie drops
+            else:
+                k_, b_ = rng.choice(TRANSPORT_OTHERS)
+                out.append([k_, b_.hex()])
+        return out
+
+    sizes = list(range(0, 201, 5)) + [1, 2, 3, 199]
+    for i in range(n + n // 5):
+        secret, salt = SECRETS[i % len(SECRETS)] if i % 3 else rand_secret(rng)
+        size = sizes[i % len(sizes)] if i % 2 == 0 else rng.randrange(0, 201)
+        kind = i % 4
+        if kind == 0:
+            value = "x" * size
+        elif kind == 1:
+            value = "".join(rng.choice("ab\u00e9\u20ac\"\\ ;,=") for _ in range(size // 2))
+        elif kind == 2:
+            value = [rng.randrange(-5, 10 ** 6) for _ in range(size // 8)]
+        else:
+            value = rand_json(rng)
+        name = rng.choice(TRANSPORT_BAD_NAMES) if i % 11 == 10 else TRANSPORT_NAMES[i % len(TRANSPORT_NAMES)]
+        if value is None or not run_catch(lambda: make_serializer(secret, salt, ALGS[i % 4]).dumps(value))[0]:
+            continue            # a secret / value the constructor or json refuses: nothing is issued
+        cases.append({"kind": "transport", "mode": "signed", "secret": secret, "salt": salt, "alg": ALGS[i % 4], "name": name,
+                      "dom": rng.choice(TRANSPORT_DOMAINS), "value": canon(value),
+                      "before": others(name, rng.randrange(0, 4)), "after": others(name, rng.randrange(0, 4))})
+    # any serialised octets at all through the same path (pass-through serializer): quoting, escapes, non-UTF-8, empty
+    boundary = [b"", b"=", b"==", b"A", b"-_", b"a b", b"a;b", b'"', b'""', b'"a"', b"\\", b"\\073", b"a,b", b"\xff", b"\xc3\xa9",
+                b"\x00", b"a\nb", b"\x7f", b"\xe2\x82", b"\"a", b"a\"", b"Mon, 01-Jan-2024 00:00:00 GMT", b"A" * 200, b"\\" * 7]
+    for i in range(n // 2):
+        if i < len(boundary):
+            raw = boundary[i]
+        elif i % 3 == 0:
+            raw = bytes(rng.choice(ALPHABET) for _ in range(rng.randrange(0, 120)))
+        elif i % 3 == 1:
+            raw = mutate_bytes(rng, bytes(rng.choice(ALPHABET) for _ in range(rng.randrange(1, 60))))
+        else:
+            raw = bytes(rng.randrange(256) for _ in range(rng.randrange(0, 24)))
+        name = rng.choice(TRANSPORT_BAD_NAMES) if i % 9 == 8 else TRANSPORT_NAMES[i % len(TRANSPORT_NAMES)]
+        cases.append({"kind": "transport", "mode": "raw", "name": name, "dom": rng.choice(TRANSPORT_DOMAINS), "raw": raw.hex(),
+                      "before": others(name, rng.randrange(0, 3)), "after": others(name, rng.randrange(0, 3))})
+    return cases
+
+
+def corr_transport(ctx, rng, n):
+    """set_cookies on a real Response -> Set-Cookie line -> client echo among other cookies -> request.cookies.get, against
+    corr_transport (C07's make_cookie / request_cookies models composed in Model/C16_transport.v); then the statement at
+    the cookie level on the real API for every signed case."""
+    cases = []
+    fails = 0
+    ncases = gen_transport_cases(ctx, rng, n)
+    for case in ncases:
+        _, _, tok = transport_setup(case)
+        out = transport_observe(case)
+        pairs = lambda ps: clist(cpair(cstr(k), cstr(bytes.fromhex(b))) for k, b in ps)  # noqa
+        lit = "(%s, %s, %s, %s, %s)" % (cstr(case["name"]), copt(None if case.get("dom") is None else cstr(case["dom"])), cstr(tok),
+                                        pairs(case["before"]), pairs(case["after"]))
+        cases.append((lit, out, case))
+    bad = ctx.corr("cookie_transport", TRANSPORT_IMPORTS, "corr_transport", cases, in_type=TRANSPORT_TYPE, shard=100,
+                   shard_bytes=200000)
+    corr_followup(ctx, "cookie_transport", cases, bad, lambda c: [c])
+    nontrivial = 0
+    for case in ncases:
+        if case["mode"] != "signed":
+            continue
+        nontrivial += 1
+        res = run_case(case)
+        if res:
+            fails += 1
+            if fails <= 5:
+                report(ctx, case, res, "transport")
+    ctx.oracle_count("transport", nontrivial, nontrivial)
+
+
 CHECKS = {"loads": check_loads_case, "roundtrip": check_roundtrip_case, "get_value": check_get_value_case,
           "profile": check_profile_roundtrip_case, "limit": check_limit_case, "plain": check_plain_case,
           "echo": check_echo_case, "rawlimit": check_rawlimit_case, "history": check_history_case,
           "order": check_order_case, "config": check_config_case, "sconfig": check_sconfig_case,
-          "pair": check_pair_case}
+          "pair": check_pair_case, "transport": check_transport_case}
 
 
 def fresh_module():
@@ -1412,7 +1617,7 @@ def corr_followup(ctx, name, cases, bad, to_oracle_cases):
 
 # --------------------------------------------------------------------------- the check
 def correspondence(ctx):
-    for section in (corr_base64, corr_salted, corr_signed, corr_b64ser, corr_get_value, corr_get_headers):
+    for section in (corr_base64, corr_salted, corr_signed, corr_b64ser, corr_get_value, corr_get_headers, corr_transport):
         try:
             section(ctx, ctx.sub_rng("corr-" + section.__name__), ctx.scale(300, 4000))
         except Exception:  # noqa  -- the implementation raised outside any modelled outcome; the oracle sweep looks for the input
@@ -1789,8 +1994,94 @@ def all_octets(ctx, ntok):
                            "token": (t[:pos] + bytes([c]) + t[pos + 1:]).hex(), "alteration": "sub-octet"}
 
 
+# --------------------------------------------------------------------------- regenerated from the source tree
+GEN_PATH = None
+
+
+def read_cookie_tables():
+    """The alphabets / attribute table of webob.cookies that decide how a signed token travels: read from the LIVE module of
+    the tree under check.  Fail closed: anything not of the expected shape is a problem, never a guess."""
+    import webob.cookies as ck
+    problems = []
+    t = {}
+    for key, attr in (("allowed", "_allowed_cookie_bytes"), ("token", "_valid_token_bytes")):
+        v = getattr(ck, attr, None)
+        if not isinstance(v, bytes):
+            problems.append("translator: webob.cookies.%s is not a bytes object" % attr)
+            v = b""
+        t[key] = sorted(set(v))
+    keys = getattr(ck, "_c_keys", None)
+    if not isinstance(keys, (set, frozenset)) or not all(isinstance(k, bytes) for k in keys):
+        problems.append("translator: webob.cookies._c_keys is not a set of bytes")
+        keys = set()
+    t["c_keys"] = sorted(keys)
+    ren = []
+    try:
+        if list(ck._c_valkeys) != sorted(ck._c_renames):
+            raise ValueError("_c_valkeys is not sorted(_c_renames)")
+        for k in ck._c_valkeys:
+            info = ck._c_renames[k]
+            q = info["quoter"]
+            if q is ck._value_quote:
+                tag = "QValue"
+            elif q is ck._path_quote:
+                tag = "QPath"
+            else:
+                raise ValueError("quoter of %r is neither _value_quote nor _path_quote" % k)
+            if not isinstance(info["name"], bytes):
+                raise ValueError("name of %r is not bytes" % k)
+            ren.append((k, info["name"], tag))
+    except Exception as e:  # noqa  -- fail closed
+        problems.append("translator: _c_renames: %s" % e)
+        ren = []
+    t["renames"] = ren
+    # the source of _value_quote must still be "translate away the allowed bytes; quote iff something is left"
+    try:
+        import ast
+        import inspect
+        src = inspect.getsource(ck._value_quote)
+        names = {n.id for n in ast.walk(ast.parse(src)) if isinstance(n, ast.Name)}
+        if "_allowed_cookie_bytes" not in names or "translate" not in src:
+            raise ValueError("_value_quote no longer filters through _allowed_cookie_bytes")
+    except Exception as e:  # noqa
+        problems.append("translator: _value_quote: %s" % e)
+    return t, problems
+
+
+def gen(ctx):
+    """Regenerate coq/Gen/C16_cookie_tables.v from $WEBOB_REPO/src/webob/cookies.py.  Proofs/C16_transport.v proves
+    (by computation) that these tables ARE the tables under C07's model (Gen/C07_tables.v) and that the whole token alphabet
+    lies inside _allowed_cookie_bytes; a tree whose tables differ makes the build fail."""
+    import os
+
+    def nlist(xs):
+        return "[%s]" % "; ".join(str(x) for x in xs)
+
+    def h(b):
+        return '(H "%s"%%string)' % bytes(b).hex() if b else "(@nil N)"
+
+    t, problems = read_cookie_tables()
+    out = ["(* GENERATED from src/webob/cookies.py of the tree under check by harness/props/c16.py - do not edit *)",
+           "From Coq Require Import NArith List String.", "Require Import Webob.Lib.Val Webob.Gen.C07_tables.",
+           "Import ListNotations.", "Local Open Scope N_scope.",
+           "Definition c16_allowed_cookie_bytes : list N := %s." % nlist(t["allowed"]),
+           "Definition c16_valid_token_bytes : list N := %s." % nlist(t["token"]),
+           "Definition c16_c_keys : list str := [%s]." % "; ".join(h(k) for k in t["c_keys"]),
+           "Definition c16_c_renames : list (str * str * quoter) := [%s]." %
+           "; ".join("(%s, %s, %s)" % (h(k), h(n), q) for k, n, q in t["renames"])]
+    fw.write_if_changed(os.path.join(fw.COQ, "Gen", "C16_cookie_tables.v"), "\n".join(out) + "\n")
+    ctx.extra["cookie_tables"] = {"allowed": len(t["allowed"]), "token": len(t["token"]), "c_keys": len(t["c_keys"]),
+                                  "renames": [n.decode("latin-1") for _, n, _ in t["renames"]]}
+    return problems
+
+
+
 CLOSURE = ["Lib/Val.v", "Lib/PyStr.v", "Model/C16_signed.v", "Proofs/C16_signed.v", "Proofs/C16_b64alter.v",
-           "Proofs/C16_examples.v", "Props/C16.v"]
+           "Proofs/C16_examples.v",
+           # the cookie transport is composed from C07's model and lemmas (read-only dependencies)
+           "Lib/C07_Utf8.v", "Gen/C07_tables.v", "Model/C07_CookieCodec.v", "Spec/C07_CookieSpec.v", "Proofs/C07_tables.v",
+           "Proofs/C07_output.v", "Proofs/C07_utf8.v", "Proofs/C07_input.v",
+           "Gen/C16_cookie_tables.v", "Model/C16_transport.v", "Proofs/C16_transport.v", "Props/C16.v"]
 
 
 def build(ctx):
@@ -1804,7 +2095,8 @@ def build(ctx):
     if ctx.build(["Props/C16.vo"]):
         return
     mine = [b for b in ctx.broken if b.startswith("build of Props/C16.vo failed")]
-    if not mine or re.search(r"C16_|Props/C16\.v|Lib/Val\.v|Lib/PyStr\.v", mine[0].split("failed:", 1)[1]):
+    if not mine or re.search(r"C16_|Props/C16\.v|Lib/Val\.v|Lib/PyStr\.v|Lib/C07_Utf8\.v|Gen/C07_tables\.v|Model/C07_CookieCodec\.v|Spec/C07_CookieSpec\.v|"
+                          r"Proofs/C07_(tables|output|utf8|input)\.v", mine[0].split("failed:", 1)[1]):
         return
     out = ""
     with open(os.path.join(fw.BUILD, "coq.lock"), "w") as lk:
@@ -1844,7 +2136,20 @@ MODELLED = [
     "webob.cookies:CookieProfile._get_cookies",     # get_headers: 4093 limit, one Set-Cookie per domain
     "webob.cookies:SignedCookieProfile.__init__",   # sprofile, sp_get_value / sp_get_headers wiring
     "webob.cookies:SignedCookieProfile.bind",       # sp_bind
-    "webob.cookies:make_cookie",                    # mk_cookie_plain: name=value[; Domain=d]; Path=/ for values needing no quoting
+    "webob.cookies:make_cookie",                    # mk_cookie_plain = C07's make_cookie on tokens (C16_set_cookie_line_is_make_cookie)
+    # --- the cookie transport: Model/C16_transport.v composes C07's model (Model/C07_CookieCodec.v), tied by `cookie_transport`
+    "webob.cookies:CookieProfile.set_cookies",      # set_cookie_line per domain, appended to the response's headerlist
+    "webob.cookies:Morsel.serialize",               # C07 morsel_serialize via set_cookie_line
+    "webob.cookies:_value_quote",                   # C07 value_quote; identity on tokens (C16_token_unquoted)
+    "webob.cookies:_path_quote",                    # C07 path_quote (Domain / Path attributes)
+    "webob.cookies:_valid_cookie_name",             # C07 valid_cookie_name (hypothesis of the cookie-level theorems)
+    "webob.cookies:parse_cookie",                   # C07 parse_cookie
+    "webob.cookies:_parse_cookie",                  # C07 parse_cookie_raw (findall scanner + unquote)
+    "webob.cookies:_unquote",                       # C07 unquote; identity on tokens (C16_token_unquoted)
+    "webob.cookies:_rx_cookie",                     # C07 findall scanner (structure checked by C07's gen)
+    "webob.cookies:RequestCookies._cache",          # C07 request_cookies (utf-8 decode, later pair wins)
+    "webob.cookies:RequestCookies.get",             # request_jar: dict_get on the cache
+    "webob.request:BaseRequest.cookies",            # request_jar
     "webob.util:bytes_",                            # latin1 / utf8
     "base64:urlsafe_b64encode",                     # b64enc, b2a
     "base64:urlsafe_b64decode",                     # b64dec, a2b (urlsafe translation)
@@ -1852,16 +2157,15 @@ MODELLED = [
     "binascii:a2b_base64",                          # a2b_loop (quad_pos / leftchar / pads state machine)
     "binascii:b2a_base64",                          # b64enc
 ]
-REGENERATED = []                                    # nothing is translated from source: no gen()
+# regenerated from the tree under check on every run by gen() into coq/Gen/C16_cookie_tables.v; Proofs/C16_transport.v proves by
+# computation that they equal the tables under C07's model and that the token alphabet lies inside _allowed_cookie_bytes
+REGENERATED = ["webob.cookies:_allowed_cookie_bytes", "webob.cookies:_valid_token_bytes", "webob.cookies:_c_keys",
+               "webob.cookies:_c_valkeys", "webob.cookies:_c_renames"]
 # exercised by the oracle (and as recorded external answers / transport in the correspondence), no Gallina counterpart
 ORACLE_ONLY = [
     "webob.cookies:JSONSerializer.dumps", "webob.cookies:JSONSerializer.loads",      # ser / deser parameters of the model
     "webob.cookies:CookieProfile.__init__", "webob.cookies:CookieProfile.bind", "webob.cookies:CookieProfile.__call__",
-    "webob.cookies:CookieProfile.set_cookies",
-    "webob.cookies:Morsel.serialize", "webob.cookies:_value_quote", "webob.cookies:_path_quote",
-    "webob.cookies:RequestCookies._cache", "webob.cookies:RequestCookies.get", "webob.cookies:parse_cookie",
-    "webob.cookies:_parse_cookie", "webob.cookies:_unquote", "webob.cookies:_rx_cookie", "webob.cookies:_valid_cookie_name",
-    "webob.request:BaseRequest.cookies", "webob.util:text_",
+    "webob.util:text_",
     "hmac:new", "hmac:compare_digest", "hashlib:new",                               # mac / dsize parameters of the model
 ]
 
@@ -1870,6 +2174,12 @@ def run(ctx):
     ctx.modelled(MODELLED)
     ctx.extra["regenerated_from_source"] = REGENERATED
     ctx.extra["oracle_only"] = ORACLE_ONLY
+    try:
+        for problem in gen(ctx):
+            ctx.broken.append("gen: " + problem)
+    except Exception:  # noqa  -- fail closed: the source no longer has the shape the generator reads
+        import traceback
+        ctx.broken.append("gen: coq/Gen/C16_cookie_tables.v could not be regenerated: " + traceback.format_exc()[-600:])
     build(ctx)
     correspondence(ctx)
     oracle(ctx)
